@@ -94,7 +94,11 @@ func genExt4History(r *core.Rng, tier string, idx int, wide bool) *core.Trace {
 		return d + "/" + n
 	}
 	sizes := func() int64 {
-		switch r.PickW(8, 8, 25, 25, 20, 10, 4) {
+		switch r.PickW(8, 8, 25, 25, 20, 10, 4, 3) {
+		case 7:
+			// a share of the volume (negative = percent): larger than any single run of free blocks, so that the
+			// allocator has to split the request over block groups
+			return -r.Range(25, 85)
 		case 0:
 			return 0
 		case 1:
@@ -512,11 +516,20 @@ func (x *ext4Run) step(o core.Op) *core.Violation {
 		if n.dir || n.tainted || (x.attr[m.key(o.P)] != nil && x.attr[m.key(o.P)].link != "") {
 			return nil
 		}
-		if o.B < 0 {
-			o.B = 0
-		}
-		if o.B > 4<<20 {
-			o.B = 4 << 20
+		if o.B < 0 && o.B >= -90 {
+			// percent of the volume
+			o.B = x.size / 100 * -o.B
+			if o.B > 48<<20 {
+				o.B = 48 << 20
+			}
+			x.res.Probe("volume-share-write")
+		} else {
+			if o.B < 0 {
+				o.B = 0
+			}
+			if o.B > 4<<20 {
+				o.B = 4 << 20
+			}
 		}
 		data := core.PatternBytes(uint64(o.C)+uint64(x.opIdx), o.B)
 		off := int64(0)
